@@ -15,9 +15,9 @@ KNOWN = os.path.join(VERIF, "known-findings.txt")
 KANI_ZFLAGS = ["-Z", "function-contracts", "-Z", "stubbing", "-Z", "unstable-options"]
 KANI_FLAGS = KANI_ZFLAGS + ["--no-assertion-reach-checks"]
 # harness kinds, encoded in the harness name:  c32_p_x  c32_b_x  c32_tb_x  c32_tp_x  c32_canary_x
-KIND_RE = re.compile(r"^(c\d{2,3})_(p|b|tp|tb|canary)_(\w+)$")
+KIND_RE = re.compile(r"^(c\d{2,3})_(p|b|tp|tb|canary|tcanary)_(\w+)$")
 QUICK_KINDS = ("p", "b", "canary")
-ALL_KINDS = ("p", "b", "tp", "tb", "canary")
+ALL_KINDS = ("p", "b", "tp", "tb", "canary", "tcanary")
 COMPLETE_KINDS = ("p", "tp")
 UNDECIDED_CATEGORIES = ("unwind", "unsupported_construct")
 # CBMC's float NaN-production checks are not Rust failures (producing a NaN is defined behaviour);
@@ -74,7 +74,7 @@ def scan_harnesses(crate_key, prefix):
     """Harness functions committed under /verif/kani/<crate_key>/ whose name starts with prefix.
     Returns {fn_name: (kind, file, has_cover)}"""
     res = {}
-    ident = re.compile(r"(?<![\w$])(c\d{2,3}_(?:p|b|tp|tb|canary)_\w+)\b")
+    ident = re.compile(r"(?<![\w$])(c\d{2,3}_(?:p|b|tp|tb|canary|tcanary)_\w+)\b")
     for f in sorted(glob.glob(os.path.join(KANI_DIR, crate_key, "**", "*.rs"), recursive=True)):
         for line in open(f):
             if line.lstrip().startswith("//"):
@@ -297,7 +297,7 @@ def classify(name, kind, res):
     if st == "Failure" and res["failed"] and not failed:
         st = "Success"  # only ignored (NaN-production) checks were flagged
     uncovered = [c for c in res["covers"] if c.get("status") not in ("Satisfied",)]
-    if kind == "canary":
+    if kind in ("canary", "tcanary"):
         real = [f for f in failed if f["category"] not in UNDECIDED_CATEGORIES]
         if st == "Failure" and real:
             return "canary-ok", ""
@@ -617,11 +617,11 @@ def main(argv):
                 undecided.append("[verus %s/%s] %s" % (unit, ob["name"], ob["reason"]))
 
     # ---- report
-    n_ob = sum(o["n_checks"] for o in obligations if o["kind"] != "canary")
-    n_dis = sum(o["n_checks"] for o in obligations if o["kind"] != "canary" and o["verdict"] == "discharged")
+    n_ob = sum(o["n_checks"] for o in obligations if o["kind"] not in ("canary", "tcanary"))
+    n_dis = sum(o["n_checks"] for o in obligations if o["kind"] not in ("canary", "tcanary") and o["verdict"] == "discharged")
     complete = [o for o in obligations if o["kind"] in COMPLETE_KINDS + ("verus",)]
     bounded = [o for o in obligations if o["kind"] in ("b", "tb")]
-    canaries = [o for o in obligations if o["kind"] == "canary"]
+    canaries = [o for o in obligations if o["kind"] in ("canary", "tcanary")]
     all_ok = not violations and not undecided and not known_hits
     level = spec.get("level", "other")
     if level == "proof" and (bounded or not all_ok):
@@ -663,7 +663,7 @@ def main(argv):
             "trusted_base": spec.get("trusted_base", []) + ["%s %s" % (k, v) for k, v in sorted(tools.items())],
             "explanation": expl.strip(),
             "functions_under_contract": spec.get("functions_under_contract", []),
-            "obligation_units": len([o for o in obligations if o["kind"] != "canary"]),
+            "obligation_units": len([o for o in obligations if o["kind"] not in ("canary", "tcanary")]),
             "obligation_units_discharged": len([o for o in obligations if o["verdict"] == "discharged"]),
             "complete_units": [o["name"] for o in complete],
             "bounded_units": [o["name"] for o in bounded],
